@@ -151,6 +151,22 @@ static void tgsw_round_trips(int k, int l, int bg, VhRng& rng, int per) {
     }
     delete_IntPolynomial(msg); delete_IntPolynomial(dec); delete_TGswSample(c); delete_TGswKey(key); delete_TGswParams(gp); delete_TLweParams(tp);
 }
+// histories: several TGSW layouts alive at once, the same message-space size used under one layout right after the other (what a cache keyed by
+// Msize alone, or by anything less than the whole parameter set, gets wrong)
+static void tgsw_interleaved(VhRng& rng, int per) {
+    const int N = 1024; int lay[4][3] = {{1, 3, 7}, {1, 2, 10}, {1, 4, 8}, {2, 2, 8}};
+    TLweParams* tp[4]; TGswParams* gp[4]; TGswKey* key[4]; TGswSample* c[4]; IntPolynomial* dec = new_IntPolynomial(N);
+    for (int q = 0; q < 4; q++) { tp[q] = new_TLweParams(N, lay[q][0], 0., 1.); gp[q] = new_TGswParams(lay[q][1], lay[q][2], tp[q]); key[q] = new_TGswKey(gp[q]); tGswKeyGen(key[q]); c[q] = new_TGswSample(gp[q]); }
+    for (int mb = 1; mb <= 7; mb++) for (int rep = 0; rep < per; rep++) for (int q = 0; q < 4; q++) {
+        int M = 1 << mb, bg = lay[q][2]; if (mb > bg) continue;
+        int m = rep < 3 ? rep - 1 : (int)rng.below((uint32_t)M) - M / 2; int ai = rep & 1; double alpha = ai ? 0.0 : 1.0 / 67108864.0;
+        tGswSymEncryptInt(c[q], m, alpha, key[q]); tGswSymDecrypt(dec, c[q], key[q], M);
+        int nzother = 0; for (int j = 1; j < N; j++) if (dec->coefs[j]) nzother++;
+        VH_B; vh_s("k", "gencI"); VH_C; vh_i("kk", lay[q][0]); VH_C; vh_i("l", lay[q][1]); VH_C; vh_i("bg", bg); VH_C; vh_i("M", M); VH_C; vh_i("ai", ai ? 1 : 0); VH_C; vh_i("m", m); VH_C; vh_i("dec", dec->coefs[0]); VH_C; vh_i("nzother", nzother); VH_E;
+    }
+    for (int q = 0; q < 4; q++) { delete_TGswSample(c[q]); delete_TGswKey(key[q]); delete_TGswParams(gp[q]); delete_TLweParams(tp[q]); }
+    delete_IntPolynomial(dec);
+}
 int main(int argc, char** argv) {
     vh_init();
     const char* mode = argc > 1 ? argv[1] : "";
@@ -161,7 +177,7 @@ int main(int argc, char** argv) {
     if (!strcmp(mode, "lwe")) { for (long n : vh_list(vh_sarg(argc, argv, "--n", "1,8,500"))) lwe_round_trips((int)n, Ms, rng, (int)per); }
     else if (!strcmp(mode, "gate")) { gate_bits(80, (int)per); gate_bits(128, (int)per); }
     else if (!strcmp(mode, "tlwe")) { for (long k : vh_list(vh_sarg(argc, argv, "--k", "1,2"))) tlwe_round_trips((int)k, Ms, rng, (int)per); }
-    else if (!strcmp(mode, "tgsw")) { tgsw_round_trips(1, 3, 7, rng, (int)per); tgsw_round_trips(1, 2, 10, rng, (int)per); tgsw_round_trips(2, 2, 8, rng, (int)per); tgsw_round_trips(1, 4, 8, rng, (int)per); }
+    else if (!strcmp(mode, "tgsw")) { tgsw_round_trips(1, 3, 7, rng, (int)per); tgsw_round_trips(1, 2, 10, rng, (int)per); tgsw_round_trips(2, 2, 8, rng, (int)per); tgsw_round_trips(1, 4, 8, rng, (int)per); tgsw_interleaved(rng, (int)per); }
     else { fprintf(stderr, "usage: h_enc lwe|gate|tlwe|tgsw ...\n"); return 2; }
     fflush(stdout);
     return 0;
